@@ -298,7 +298,7 @@ var purePrefixes = []string{
 	"(error).", "net/http.StatusText", "net/http.NewRequestWithContext", "net/http.NewRequest", "(io.Closer).Close", "(io.ReadCloser).Close", "(*strings.Builder).", "regexp.", "(*regexp.Regexp).", "os.Getenv", "encoding/json.Marshal", "encoding/json.Valid",
 	"(*github.com/thushan/olla/internal/adapter/stats.", "github.com/thushan/olla/internal/util.", "github.com/thushan/olla/internal/version.", "(reflect.", "reflect.",
 	"(*github.com/json-iterator/go.", "github.com/json-iterator/go.", "github.com/tidwall/gjson.", "(github.com/tidwall/gjson.Result).",
-	"(*sync.WaitGroup).", "(*sync.Pool).", "(*sync.Map).", "encoding/json.NewDecoder", "(*encoding/json.Decoder).", "encoding/json.Marshal", "bufio.", "(*bufio.Scanner).", "(*bufio.Reader).", "net/http.NewResponseController", "(*net/http.Request).Context", "(*net/http.Request).WithContext", "(*net/http.Request).UserAgent", "github.com/thushan/olla/internal/app/middleware.GetLogger", "github.com/thushan/olla/internal/app/middleware.GetRequestID", "github.com/thushan/olla/internal/app/middleware.FormatBytes", "(*github.com/thushan/olla/pkg/pool.Pool).", "(*golang.org/x/time/rate.Reservation).OK", "(*golang.org/x/time/rate.Reservation).Delay", "golang.org/x/time/rate.NewLimiter", "runtime.", "(*time.Timer).", "(*time.Ticker).", "io.", "(*bytes.Buffer).", "(*bytes.Reader).",
+	"(*sync.WaitGroup).", "(*sync.Pool).", "(*sync.Map).", "(*io.PipeReader).", "(*io.PipeWriter).", "encoding/json.NewDecoder", "(*encoding/json.Decoder).", "encoding/json.Marshal", "bufio.", "(*bufio.Scanner).", "(*bufio.Reader).", "net/http.NewResponseController", "(*net/http.Request).Context", "(*net/http.Request).WithContext", "(*net/http.Request).UserAgent", "github.com/thushan/olla/internal/app/middleware.GetLogger", "github.com/thushan/olla/internal/app/middleware.GetRequestID", "github.com/thushan/olla/internal/app/middleware.FormatBytes", "(*github.com/thushan/olla/pkg/pool.Pool).", "(*golang.org/x/time/rate.Reservation).OK", "(*golang.org/x/time/rate.Reservation).Delay", "golang.org/x/time/rate.NewLimiter", "runtime.", "(*time.Timer).", "(*time.Ticker).", "io.", "(*bytes.Buffer).", "(*bytes.Reader).",
 }
 
 func (u *Unit) isPure(fn *types.Func) bool {
@@ -880,6 +880,8 @@ func (u *Unit) applyContract(st *State, ct *Contract, sig *types.Signature, recv
 }
 
 type modItem struct {
+	objT  types.Type
+	obj   string // `object x`: every field of the object x refers to
 	heap  string
 	sort  string
 	ref   string // "" = whole array
@@ -928,6 +930,19 @@ func (u *Unit) resolveModifies(st *State, ct *Contract, env *SpecEnv) []modItem 
 			x := u.specExpr(st, e, env, &q)
 			st.noFacts--
 			out = append(out, modItem{heap: "XC!counter", sort: SInt, ref: x.S})
+			continue
+		}
+		if strings.HasPrefix(m, "object ") {
+			e, err := parseSpec(strings.TrimSpace(m[7:]))
+			if err != nil {
+				u.eng.specError("%s: bad modifies item %q", env.what, m)
+				continue
+			}
+			q := false
+			st.noFacts++
+			x := u.specExpr(st, e, env, &q)
+			st.noFacts--
+			out = append(out, modItem{obj: u.scalar(st, x), objT: x.T})
 			continue
 		}
 		if strings.HasPrefix(m, "allmaps ") {
@@ -1077,6 +1092,8 @@ func (u *Unit) applyModifies(st *State, ct *Contract, env *SpecEnv) {
 	items := u.resolveModifies(st, ct, env)
 	for _, it := range items {
 		switch {
+		case it.obj != "":
+			u.havocObject(st, it.obj, it.objT)
 		case it.all:
 			u.havocAllHeap(st, "modifies * of "+ct.Key)
 			for g, v := range st.gvars {
